@@ -433,6 +433,45 @@ def rule_r12(chk, facts):
         raise AnalysisBroken('store to ParIter not found in ExpandIRPN')
 
 
+def rule_r14(chk, facts):
+    chk.rule('C03-R14', 'a copy loop whose remaining count is reduced by the number of bytes fread() returned leaves the loop '
+             'when fread() returns less than requested: at end of file fread() keeps returning 0, the count no longer '
+             'shrinks and the loop would never end (BINCLUDE with an offset behind the end of the file)', min_instances=1)
+    seen = set()
+    n = 0
+    for exe in ('asl', 'plist', 'pbind', 'p2bin', 'p2hex', 'alink', 'dasl'):
+        P = facts.program(exe)
+        for f in P.all_funcs():
+            if f.qname in seen or f.entry is None:
+                continue
+            seen.add(f.qname)
+            for (h, s0) in f.loops():
+                body = f.loop_body(h, s0)
+                rvars = set()
+                for bb in body:
+                    for ln, ex in f.blocks[bb]['elems']:
+                        for m in walk_own(ex):
+                            if is_assign(m) and m[1] == '=' and nocast(m[3])[0] == 'call' and callee_name(nocast(m[3])) in ('fread', 'read') \
+                                    and strip(m[2])[0] == 'l':
+                                rvars.add(strip(m[2]))
+                for r in sorted(rvars):
+                    dec = [m for bb in body for ln, ex in f.blocks[bb]['elems'] for m in walk_own(ex)
+                           if is_assign(m) and m[1] in ('-=',) and nocast(m[3]) == r]
+                    if not dec:
+                        continue
+                    n += 1
+                    exits = [1 for s_, d_, l in f.edges() if s_ in body and d_ not in body and l is not None and l[0] in ('T', 'F') and
+                             mentions(l[1], lambda x: isinstance(x, (list, tuple)) and len(x) == 2 and x[0] == 'l' and strip(x) == r)]
+                    ok = bool(exits)
+                    chk.ob('C03-R14', '%s:%s:%s-=%s' % (f.unit.name, f.name, show(strip(dec[0][2])), r[1]), ok, f.loc(),
+                           'loop is left on a short read' if ok else
+                           'the loop continues while %s != 0 and reduces it by the result of fread(), but has no exit that '
+                           'looks at that result: once fread() returns 0 (seek position behind the end of the file) it never ends' %
+                           show(strip(dec[0][2])))
+    if n < 1:
+        raise AnalysisBroken('no fread() copy loop with a result-driven counter found')
+
+
 def rule_r11(chk, facts):
     chk.rule('C03-R11', 'the name validators ChkSymbName() and ChkMacSymbName() return False for the empty string (constant '
              'propagation through the validator and its helpers with the argument bound to ""): an empty macro/IRP '
@@ -473,6 +512,7 @@ def run(chk, facts, info):
     rule_r10(chk, facts)
     rule_r11(chk, facts)
     rule_r12(chk, facts)
+    rule_r14(chk, facts)
     chk.rule('C03-R13', 'in p2bin, p2hex, alink and dasl every ChkIO() call stands directly under a failure test of the '
              'operation it checks or is preceded on every path by errno = 0: a well-formed input is not rejected with '
              'an I/O error because of a stale errno', min_instances=100)
